@@ -33,13 +33,13 @@ TEXT = {
     "C01": {"design_ref": _E + "C01",
             "technique": "explicit-state model checking of the real engine: BFS over histories x bounded in-build schedule deviations, reference evaluator oracle",
             "text": "Every history up to depth 4 (quick) / 5 (thorough) of {set leaf, tamper output cell, build any key, restart on the same database, redefine a rule} "
-                    "over 30 curated rule worlds plus the enumerated static family, with and without SQLite database, default schedule plus every single "
+                    "over 39 curated rule worlds, the enumerated static family and the 156-world request-mode family (every order and normal/single-use/must-follow assignment of three requests), with and without SQLite database, in database mode with one build per history cancelled at every step or hit by a database write error at every write, default schedule plus every single "
                     "deviation (synchronous vs deferred completion, delivery order), is executed on a fresh real engine; every successful build's value "
-                    "and every input handed to a task is compared with a memoised recursive reference evaluation in the current external state.",
+                    "and every input handed to a task is compared with a memoised recursive reference evaluation in the current external state. A structured A-B-A pass goes beyond the depth bound: build K, set any subset of leaves, rebuild K interrupted at every step / write, optional restart, put leaves back, rebuild K.",
             "note": "Trusted: the reference evaluator (80 lines) and the world grammar; worlds outside the grammar, deeper histories and >1 schedule deviation per build are not covered."},
     "C02": {"design_ref": _E + "C02",
             "technique": "explicit-state model checking of the real engine with a shadow record of change/up-to-date stamps as oracle",
-            "text": "Same search as C01 extended with one cancelled build per history (cancellation at every engine step); for every task creation the "
+            "text": "Same search as C01 extended with one interrupted build per history (cancellation at every engine step, database write error at every write); for every task creation the "
                     "observer demands a true justification (never built / signature / declared invalid / recorded non-order-only dependency changed since "
                     "last up to date / interrupted) from its own shadow record, at most one execution per rule per build, and checks every reason reported to the delegate.",
             "note": "The shadow record mirrors what the statement lists, kept in two layers (memory / persisted) so restarts are judged against what a new process can know."},
@@ -47,19 +47,19 @@ TEXT = {
             "technique": "explicit-state model checking: restart-split differential + write/read-back identity on the real SQLite BuildDB",
             "text": "Every database-mode history up to the depth bound is run in one engine and again with a restart at every build boundary (executed sets, "
                     "values must agree); after every build a fresh BuildDB must read back exactly the last record written for every key (value, signature, "
-                    "epochs, dependency list with flags) and the epoch.",
+                    "epochs, dependency list with flags) and the epoch; histories include one build cancelled at every step or failing at every database write.",
             "note": "Hostile key/value byte strings and the version/lock matrix are separate parts (see DESIGN.md)."},
     "C05": {"design_ref": _E + "C05",
             "technique": "explicit-state model checking of the real engine with cancellation injected at every engine step",
             "text": "For every history up to the depth bound, one build is cancelled at every step (every client callback and each of the three engine "
-                    "notification points, under every explored schedule); the cancelled build must fail, leave no computing task, persist only results of "
-                    "completed tasks, and every later build on the same engine after reset or on a restarted engine must return the clean-build value.",
+                    "notification points, under every explored schedule) or made to fail by an error of its N-th database write for every N; the interrupted build must fail, leave no computing task, persist only results of "
+                    "completed tasks, and every later build on the same engine after reset or on a restarted engine must return the clean-build value; plus the structured A-B-A pass of C01.",
             "note": "Cancellation is issued on the engine thread at hook points; foreign-thread timing is the schedx part."},
     "C06": {"design_ref": _E + "C06",
             "technique": "exhaustive enumeration of all completion orders/delivery points of a build on the real engine; outcome and protocol oracles",
             "text": "For every prefix history up to depth 2 (3 thorough) and every final build, ALL schedules (each task completes synchronously or deferred; "
                     "deferred completions delivered in every order at loop-top or before-wait points) are executed; values, executed sets and the full "
-                    "canonical engine state must be identical across schedules and every task must see the documented callback protocol.",
+                    "canonical engine state must be identical across schedules and every task must see the documented callback protocol; in database mode every write of the final build is additionally made to fail under every schedule with <= 1 deviation (the build has to return).",
             "note": "Single-threaded emulation of completion order; real threads under a preemption-bounded scheduler are the schedx part."},
     "C07": {"design_ref": _E + "C07",
             "technique": "exhaustive enumeration of all directed request graphs up to n keys on the real engine + BFS over cycle-capable dynamic worlds",
@@ -83,11 +83,11 @@ TEXT.update({
             "text": "For every history up to depth 4 (5) over the worlds expressible through core.h (no single-use requests, no signatures), with keys containing NUL, 0xFF "
                     "and numeric-looking spellings and values wrapped in NUL/0xFF bytes, with and without an attached database (including restarts and a client-version bump), the "
                     "sequence of client-visible events (rule lookups, create_task, is_result_valid arguments and answers, update_status, start, provide_value(id, bytes), "
-                    "inputs_available, completions, cycle keys, results) and the persisted database must be identical between the two interfaces; the C run is also judged against the reference evaluator.",
+                    "inputs_available, completions, cycle keys, results) and the persisted database must be identical between the two interfaces; the C run is also judged against the reference evaluator. Schema-version matrix: writer and reader each through C++ or C x 8 x 8 client versions around 2^31 - reuse iff equal.",
             "note": "The C API offers no cancellation, prior values or single-use requests, so those are outside this check."},
     "C08": {"design_ref": "DESIGN.md §4.5, §5 C08",
             "technique": "bounded-exhaustive exploration of edit histories through the real llbuild tool (new process per build) against a reference evaluator cross-checked with clean builds",
-            "text": "27 description families (shell via a deterministic helper, phony, mkdir, symlink; file, virtual, directory-tree and directory-structure nodes; multiple outputs; "
+            "text": "28 description families (shell via a deterministic helper, phony, mkdir, symlink; file, virtual, directory-tree and directory-structure nodes; multiple outputs; "
                     "shared sub-graphs), each with 2-4 description variants: every history up to 3 events (4 for 7 families; thorough 4 resp. 5) of {edit / same-size rewrite a source, "
                     "delete or overwrite an output, switch description, build a target}, serial and -j4, is replayed from scratch in a fresh sandbox with logical-clock mtimes; after "
                     "each successful build every output reachable from the target must have the reference content.",
@@ -95,24 +95,24 @@ TEXT.update({
     "C09": {"design_ref": "DESIGN.md §5 C09",
             "technique": "bounded-exhaustive exploration: null builds after every explored history, all single-attribute definition pairs in process and end to end, signatures across processes",
             "text": "For every history of C08's space an immediate further build in a new process must execute nothing but always-out-of-date commands and a command that ran must have a "
-                    "cause; 71 pairs of shell/phony/mkdir/symlink/node definitions differing in exactly one attribute must have different signatures (in-process getSignature) and "
+                    "cause; 147 pairs of shell/phony/mkdir/symlink/clang/swift-compiler/shared-library/archive/node definitions differing in exactly one attribute (incl. every edge of the 3-flag cube and every flag-carrying base) must have different signatures (in-process getSignature) and "
                     "re-execute end to end when signature-relevant, not re-execute otherwise; every signature computed in two processes must agree.",
             "note": "phony commands are invisible in the execution log, so their pairs are judged in process only."},
     "C10": {"design_ref": "DESIGN.md §5 C10",
             "technique": "exhaustive enumeration of failing command subsets x failure kinds x failing build index through the real tool, then repair and rebuild",
             "text": "7 (34) descriptions with up to 4 commands over file, virtual, directory and multi-output edges: every subset of commands is made to fail (exit 1 before/after writing, "
-                    "SIGKILL, missing undeclared input, unwritable output) in build 0..2 of a history, serial and parallel; no consumer of a failed command may run, llbuild must exit "
+                    "SIGKILL, death by SIGTERM/SIGSEGV/SIGABRT, missing undeclared input, unwritable output) in build 0..2 of a history, serial and parallel; no consumer of a failed command may run, llbuild must exit "
                     "non-zero, the next build must retry the failed commands, and after repair the build must converge to the clean-build state; plus SIGINT scenarios with a gated helper.",
             "note": "Cancellation timing of -j4 runs is real time (one gated command per scenario). Second part (kgx): the same oracle in process under a KEEP-GOING client (a BuildSystemFrontend "
                     "delegate that counts failures and does not cancel, new frontend per build on one SQLite database): 6 (10) descriptions x every failing subset x {no flag, allow-modified-outputs, "
-                    "allow-missing-inputs} x {fail-before, fail-after, kill-after} x lanes x with/without a prior successful build; failed results are really recorded there and must be retried."},
+                    "allow-missing-inputs} x {fail-before, fail-after, kill-after, term-after} x lanes x with/without a prior successful build; failed results are really recorded there and must be retried."},
     "C11": {"design_ref": "DESIGN.md §5 C11",
             "technique": "bounded-exhaustive enumeration of dependency files (all path strings over the format's special characters x layouts, all truncations) on the real parsers under ASan",
             "text": "All path strings up to length 4 (6 thorough) over {a,' ','#','$','\\',':','/','.'} and pairs of them, rendered with the documented escaping into "
                     "single-rule, two-rule, continuation and CRLF layouts, must be recovered byte for byte by MakefileDepsParser; all dependency-info files with up to 2 (3) "
                     "records over a hostile operand alphabet likewise; every truncation and structural fault must be reported through the error callback.",
             "note": "History part (worldx2): 48 path classes (spaces, '#', '$', backslash, colon, leading/trailing/doubled, sub-directory, absolute, relative under a working-directory) x "
-                    "{makefile, dependency-info} x P initially present/missing x every history of <=2 (3) steps of {modify, delete, create P, touch nothing} through the real tool: the command re-executes iff P changed; malformed dependency files fail the build."},
+                    "{makefile, dependency-info, P named only in the second of two dependency files} x P initially present/missing x every history of <=2 (3) steps of {modify, delete, create P, touch nothing} through the real tool: the command re-executes iff P changed; malformed dependency files fail the build."},
     "C12": {"design_ref": "DESIGN.md §5 C12",
             "technique": "bounded-exhaustive exploration of directory-tree shapes x edits through the real llbuild tool against a reference listing model",
             "text": "All 145 (1513 thorough) trees of depth <=2 and fan-out <=2 over {file, dir, symlink} with names {a, b, k.x}: the null control and every single edit (add, remove, rename, "
@@ -124,7 +124,7 @@ TEXT.update({
             "technique": "bounded-exhaustive exploration of edit histories through `llbuild ninja build` (new process per build) against a reference evaluator cross-checked with clean builds",
             "text": "10 (23) Ninja manifest families with 3-7 variants each (explicit/implicit/order-only inputs, multiple outputs, phony, depfile, restat, generator, pool): every history up to "
                     "3 (4; 5 for two families) events of {rewrite/touch a source, delete an output, switch manifest variant, build}, with --jobs 1 and 4, with and without database, plus a failure "
-                    "phase (fail-before/after of each command, repair, rebuild, null build; -k 1 and -k 0): contents equal the clean build, an immediate rebuild runs nothing, order-only inputs "
+                    "phase (fail-before/after of each command and death of its shell by SIGTERM, repair, rebuild, null build; -k 1 and -k 0): contents equal the clean build, an immediate rebuild runs nothing, order-only inputs "
                     "never trigger, implicit/depfile inputs and command changes do, a failing command stops dependents and is retried.",
             "note": "Equal mtimes (the < vs <= boundary) cannot occur under the logical clock; in --no-db mode only contents, ordering and failure semantics are asserted."},
     "C13": {"design_ref": "DESIGN.md §5 C13",
@@ -138,7 +138,7 @@ TEXT.update({
             "text": "All 1.86M (477M thorough) absolute (path, root) pairs over {'/','a','b','.'} up to length 6 (8) are passed to the real pathIsPrefixedByPath and "
                     "compared with a split-on-separator, drop-empty-components prefix test.",
             "note": "Second part (stalex): every (previous list, current list, roots) triple with lists of <=2 paths from a 12-path alphabet and <=2 roots from 6 is run in process "
-                    "through a real BuildSystem + SQLite database with a recording file system (new BuildSystem per run = restart); the set of remove() calls must equal the reference, nothing else may be touched; three-list histories and real-tmpfs subtree removal in thorough."},
+                    "through a real BuildSystem + SQLite database with a recording file system (new BuildSystem per run = restart); the set of remove() calls must equal the reference, nothing else may be touched; all three-list histories (13 x 79 x 13 quick, 13 x 79 x 79 thorough) judged at the third run; real-tmpfs subtree removal."},
     "C15": {"design_ref": "DESIGN.md §5 C15",
             "technique": "exhaustive enumeration of keys/values of every kind over a byte alphabet; round-trip, canonicity and global injectivity oracles",
             "text": "All 9 key kinds x names up to length 3 (4) over {'a','/',NUL,0xFF} x filter lists, all 18 value kinds x 0..3 outputs x FileInfo fields in "
@@ -156,7 +156,7 @@ TEXT.update({
     "C17": {"design_ref": "DESIGN.md §5 C17",
             "technique": "bounded-exhaustive differential testing against the reference implementation /usr/bin/ninja 1.11.1",
             "text": "Every manifest with at most 2 (3) non-default features out of a 27-dimension grammar (path flavours incl. non-ASCII bytes, input classes, "
-                    "build/rule/file-level bindings, nested references, include/subninja, continuations, CRLF, comments, keyword-like identifiers) is loaded by "
+                    "build/rule/file-level bindings, nested references, commands referring to $depfile/$rspfile, include/subninja, continuations, CRLF, comments, keyword-like identifiers) is loaded by "
                     "both tools; outputs, the three input classes, expanded command, description, depfile, rspfile and rspfile_content of every build statement must agree; "
                     "all strings up to length 4 over a shell-special alphabet must survive shellEscaped + /bin/sh.",
             "note": "Trusted base: ninja 1.11.1 as the definition of Ninja's evaluation rules; manifests ninja rejects are skipped."},
